@@ -31,21 +31,21 @@ Proof. split; reflexivity. Qed.
 Theorem write_never_blocks p room :
   let len := zlen (p_ibuf p) in
   exists w, wres_of (kernel_write PIPE_NONBLOCK_STDIN room len) = Some w /\
-            p_broken p = false ->
-            let '(p', r) := flush p w in
-            r = FOk /\ p_accepted p' ++ p_ibuf p' = p_accepted p ++ p_ibuf p /\
-            exists k, p_accepted p' = p_accepted p ++ k.
+            (p_broken p = false ->
+             let '(p', r) := flush p w in
+             r = FOk /\ p_accepted p' ++ p_ibuf p' = p_accepted p ++ p_ibuf p /\
+             exists k, p_accepted p' = p_accepted p ++ k).
 Proof.
   intros len. destruct parent_ends_nonblocking as [S _]. rewrite S.
   pose proof (zlen_nonneg (p_ibuf p)) as L. fold len in L.
   unfold kernel_write. destruct (len <=? Z.max 0 room) eqn:F; [|destruct (room <=? 0) eqn:R].
-  - exists (WRoom len). intros [_ B]. unfold flush. rewrite B.
+  - exists (WRoom len). split; [reflexivity|]. intros B. unfold flush. rewrite B.
     replace (Z.max 0 (Z.min len (zlen (p_ibuf p)))) with len by (unfold len; lia). simpl.
     split; [reflexivity|]. split; [|eexists; reflexivity].
     rewrite <- app_assoc. f_equal. rewrite py_upto_nonneg, py_from_nonneg by lia. apply firstn_skipn.
-  - exists WAgain. intros [_ B]. unfold flush. rewrite B. simpl.
+  - exists WAgain. split; [reflexivity|]. intros B. unfold flush. rewrite B. simpl.
     split; [reflexivity|]. split; [reflexivity|]. exists []. rewrite app_nil_r. reflexivity.
-  - exists (WRoom room). intros [_ B]. unfold flush. rewrite B. simpl.
+  - exists (WRoom room). split; [reflexivity|]. intros B. unfold flush. rewrite B. simpl.
     split; [reflexivity|]. split; [|eexists; reflexivity].
     rewrite <- app_assoc. f_equal.
     set (sent := Z.max 0 (Z.min room (zlen (p_ibuf p)))).
